@@ -1,8 +1,8 @@
 (* C11 -- Binary-to-text and wire codecs are exact inverses on their whole domain.
    Statements only; every proof is [exact <lemma>] with Print Assumptions beneath. *)
-From Coq Require Import NArith ZArith List.
+From Coq Require Import NArith ZArith Arith List.
 From BU Require Import Base.Exn Base.Bytes Gen.Consts Model.Base58 Model.Base58Xmr Model.Codecs Model.IntBytes.
-From BU Require Lemmas.Base58 Lemmas.ConstsOk Lemmas.XmrConstsOk Lemmas.IntBytes Lemmas.ConvertBitsOk.
+From BU Require Lemmas.Base58 Lemmas.ConstsOk Lemmas.XmrConstsOk Lemmas.IntBytes Lemmas.ConvertBitsOk Lemmas.Base32 Lemmas.Base32Ok.
 Import ListNotations.
 Open Scope N_scope.
 
@@ -229,3 +229,42 @@ Proof.
   split; [exact (ConvertBitsOk.from_base32_range l)|exact (ConvertBitsOk.to_base32_range l)].
 Qed.
 Print Assumptions convertbits_errors.
+
+(* ------------------------------------------------------------------ Base32 (RFC 4648 via base64) *)
+
+(* a custom alphabet is admissible when it is a bijective relabelling: 32 distinct characters, no '=' *)
+Definition b32_custom_ok (custom : option (list N)) : Prop :=
+  match custom with
+  | None => True
+  | Some c => NoDup c /\ length c = 32%nat /\ ~ In Base32.rfc_pad c
+  end.
+
+Theorem b32_roundtrip : forall b custom, bytes_ok b -> b32_custom_ok custom ->
+  exists s, Codecs.b32_encode b custom = Ok s /\ Codecs.b32_decode s custom = Ok b.
+Proof. exact Base32Ok.b32_roundtrip. Qed.
+Print Assumptions b32_roundtrip.
+
+(* pad strip / restore, for every length (mod 5): EncodeNoPadding output has no '=' and decodes to b *)
+Theorem b32_roundtrip_no_padding : forall b custom, bytes_ok b -> b32_custom_ok custom ->
+  exists s, Codecs.b32_encode_no_padding b custom = Ok s /\ Codecs.b32_decode s custom = Ok b /\
+            ~ In Base32.rfc_pad s.
+Proof. exact Base32Ok.b32_roundtrip_no_padding. Qed.
+Print Assumptions b32_roundtrip_no_padding.
+
+Example b32_custom_ok_ex : b32_custom_ok (Some (map (fun c => c + 32) (firstn 26 Base32.rfc_alphabet) ++ skipn 26 Base32.rfc_alphabet)).
+Proof.
+  split; [apply Base.Bytes.nodupb_sound; vm_compute; reflexivity|].
+  split; [reflexivity|]. intro H. apply Base.Bytes.memb_In in H. vm_compute in H. discriminate.
+Qed.
+Print Assumptions b32_custom_ok_ex.
+
+(* the text is the standard one: its data symbols are the 8->5 regrouping of b (the unique digit string ds
+   with 5|ds| = 8|b| + p, p < 5, value(ds) = value(b) * 2^p) through the alphabet, then '=' to a multiple of 8 *)
+Theorem b32_encode_standard : forall b custom s, bytes_ok b -> b32_custom_ok custom ->
+  Codecs.b32_encode b custom = Ok s ->
+  (length s mod 8)%nat = 0%nat /\
+  exists ds, Lemmas.Base32.digits5 b ds /\
+    s = map (Base32.sym32 (Lemmas.Base32.eff custom)) ds ++
+        repeat Base32.rfc_pad (Lemmas.Base32.padcount (length ds)).
+Proof. exact Base32Ok.b32_encode_standard. Qed.
+Print Assumptions b32_encode_standard.
